@@ -30,9 +30,10 @@ ASSUMPTIONS = [
     "Random / PowerOfTwo draws are not modelled: the model returns the set the draw is taken from; the implementation's picks (16 resp. 64 draws) must lie in it (Random) / be exactly it (PowerOfTwo's two candidates)",
     "time: one model second = 100000 real seconds; fail()/succeed()/can_try()/is_down() are the real ones; the random window length fail() draws is checked against its range and replaced (hook) by the case's; a clock advance ages every policy's last_try (hook); Instant::now() jitter (<< 1 model second per case) cannot change an outcome",
     "connect outcomes are environment data: a non-blocking tcp connect to a loopback address answers Ok (EINPROGRESS), to 255.255.255.255 fails synchronously (ENETUNREACH in tcp_v4_connect); the driver re-checks this on every connect",
+    "health checker: the real HealthChecker runs on a mio Poll against scripted loopback TCP servers (200, 503, close after accept, refuse, hang after accept, half a status line); its clock is aged by the case's `advance` through the cfg(sozu_verif) hook (started_at of the probes in flight, last_check_time), one model second = 100000 real seconds, so the per-cluster jitter on the interval (0 < jitter < interval/5) is strictly inside one model second (the driver checks this for the case's interval) and a round starts after interval+1 whole model seconds; the strict `elapsed > timeout` is `>=` on whole model seconds because real time has advanced by an instant; a backend that floods the reader (more than MAX_HEALTH_RESPONSE_SIZE, delivered in 256-byte reads per edge-triggered event) is in the model as an immediate failure but left out of the generated cases: when its verdict arrives depends on socket buffering, not on the checker; TLS / h2c probes are not exercised (plain HTTP/1.1 GET only)",
     "LoadMetric::ConnectionTime (PeakEWMA, wall-clock data) is not modelled: with that metric the pick of LeastLoaded / PowerOfTwo is checked for membership in the candidate list only; the 65537-slot production Maglev table is modelled over a binary trie proved equal slot for slot to the list-based rebuild, and compared slot by slot with the real table in dedicated cases (the same rebuild code is compared slot by slot at table sizes 2..31)",
 ]
-TRUSTED = ["translator props/c12.py:translate compares DEFAULT_TABLE_SIZE, DEFAULT_WEIGHT, the max_tries of Backend::new, the bodies of can_open / is_available / the fail-open filter and the statements of ExponentialBackoffPolicy::{fail,can_try} with lib/src/{backends,load_balancing,retry}.rs"]
+TRUSTED = ["translator props/c12.py:translate compares DEFAULT_TABLE_SIZE, DEFAULT_WEIGHT, the max_tries of Backend::new, the bodies of can_open / is_available / the fail-open filter and the statements of ExponentialBackoffPolicy::{fail,can_try} with lib/src/{backends,load_balancing,retry}.rs, and for the health checker the order deadline-before-readiness-gate in progress_checks, the in-flight filter and the jittered-interval test of initiate_checks, and the address look-up / thresholds of record_check_result with lib/src/health_check.rs"]
 
 
 def _norm(s):
@@ -96,6 +97,33 @@ def translate():
             fails.append("retry.rs: can_try() is no longer `last_try.elapsed() >= wait`")
     except ValueError as ex:
         fails.append("retry.rs: fail / can_try not found (%s)" % ex)
+    # the health checker (model C12/HModel.v)
+    hcs = open(os.path.join(vlib.REPO, "lib/src/health_check.rs")).read()
+    try:
+        pc = _norm(_fn_body(hcs, "fn progress_checks(&mut self, backends: &Rc<RefCell<BackendMap>>, registry: &Registry)"))
+        dl = _norm("if now.duration_since(check.started_at) > check.timeout {")
+        gate = _norm("if !ready.contains(&check.token) { continue; }")
+        if dl not in pc:
+            fails.append("health_check.rs: progress_checks no longer fails a probe when `now - started_at > timeout` (model: timed_out)")
+        elif gate in pc and pc.index(gate) < pc.index(dl):
+            fails.append("health_check.rs: progress_checks tests the deadline after the readiness gate: a silent backend's probe never ends (model: progress_timeouts needs no readiness)")
+    except ValueError as ex:
+        fails.append("health_check.rs: progress_checks not found (%s)" % ex)
+    n = _norm(hcs)
+    for frag, what in [
+        ("b.status == crate::backends::BackendStatus::Normal && !self.in_flight.iter().any(|f| { f.cluster_id == *cluster_id && f.backend_id == b.backend_id })",
+         "initiate_checks no longer probes exactly the Normal backends without a probe in flight for (cluster, backend id) (model: initiate_cluster)"),
+        ("Some(last) => now.duration_since(*last) >= jittered_interval,",
+         "initiate_checks no longer starts a round when `now - last >= interval + jitter` (model: h_interval + 1 <= now - last)"),
+        ("let Some(backend_ref) = backend_list.find_backend(&address) else {",
+         "record_check_result no longer finds the backend through the cluster's list by address (model: record_result)"),
+        ("backend.health.record_success(config.healthy_threshold)", "record_check_result no longer applies healthy_threshold to a success"),
+        ("backend.health.record_failure(config.unhealthy_threshold)", "record_check_result no longer applies unhealthy_threshold to a failure"),
+        ("self.in_flight .retain(|check| check.cluster_id != cluster_id);",
+         "remove_cluster no longer drops the cluster's probes in flight (model: hc_remove)"),
+    ]:
+        if _norm(frag) not in n:
+            fails.append("health_check.rs: " + what)
     return fails
 
 
@@ -451,12 +479,15 @@ def nontrivial(case, o):
 LEVEL_TEXT = ("Machine-checked proof (Coq 8.16) over an executable model of Backend / BackendList / the back-off "
               "policy / HealthState and the six load-balancing policies: every selection of every history returns an "
               "eligible backend (or the documented fail-open one), backups only without primaries, sticky wins, "
-              "affinity is stable, the Maglev table is total after every rebuild with a prime size (65537 proved prime), counters balance; the model is tied "
-              "to lib/src/{backends,load_balancing,retry}.rs on every run by a predicate/constant translator and a "
+              "affinity is stable, the Maglev table is total after every rebuild with a prime size (65537 proved prime), counters balance; "
+              "the health checker (probe life-cycle with the clock as a parameter): every probe ends by the first poll at or after its deadline "
+              "whatever the backend does, health flips exactly at the consecutive-result thresholds, never two probes in flight for one backend, "
+              "a removed backend is never marked; the model is tied "
+              "to lib/src/{backends,load_balancing,retry,health_check}.rs on every run by a predicate/constant translator and a "
               "differential correspondence run of the real BackendMap against the extracted model, with the property's "
               "own oracle evaluated on the implementation.")
 LEVEL_NOTE = ("Trusted: Coq kernel; extraction + ocaml/driver.ml for the correspondence only; hash values and HRW "
-              "scores are data read from the real code; Random/PowerOfTwo draws compared by membership; PeakEWMA metric not "
+              "scores are data read from the real code; the health checker's network is scripted loopback servers and its clock is aged through a hook (what a probe's socket does under real network loss / TLS is not covered); Random/PowerOfTwo draws compared by membership; PeakEWMA metric not "
               "modelled (membership only); what the session code does to the "
               "backend it was given (inc/dec/fail/succeed call sites) is checked black-box through a real worker and "
               "the backend snapshot hook, not proved.")
